@@ -188,7 +188,7 @@ def run(ctx):
                 "callback_returns": "SamplingResult" if as_result else "dict"}
         fp = circmon.circuit_fingerprint(base, with_unitary=True)
         seen = {"settings": [], "problems": [], "data": {}}
-        data_kind = str(rng.choice(["exact", "exact", "integer_counts", "unnormalised_floats"]))
+        data_kind = str(rng.choice(["exact", "exact", "integer_counts", "unnormalised_floats", "numpy_integer_counts"]))
         case["data_kind"] = data_kind
         ctx.bucket("callback_data:" + data_kind)
         in_occ = [1, 0] * n
@@ -219,6 +219,13 @@ def run(ctx):
                         probs = {s_: int(round(p_ * big)) for s_, p_ in probs.items()}
                         if sum(probs.values()) == 0:
                             probs[State(in_occ)] = 1
+                    elif data_kind == "numpy_integer_counts":
+                        # counts as fixed-width numpy integers, each count in range, the total per setting beyond 2**31
+                        ty_ = [np.int32, np.int64, np.uint32, np.uint16][int(rng.integers(4))]
+                        big = {np.int32: 2_000_000_000, np.int64: 10 ** 12, np.uint32: 4_000_000_000, np.uint16: 60000}[ty_]
+                        probs = {s_: ty_(int(round(p_ * big))) for s_, p_ in probs.items()}
+                        if sum(int(v_) for v_ in probs.values()) == 0:
+                            probs[State(in_occ)] = ty_(1)
                     elif data_kind == "unnormalised_floats":
                         scale_ = float(rng.choice([1e-3, 7.5, 1e6, 2e-9, 1e-13, 1e12]))
                         probs = {s_: p_ * scale_ for s_, p_ in probs.items()}
@@ -322,12 +329,12 @@ def run(ctx):
         d = float(np.max(np.abs(rho - rho_exp)))
         if data_kind != "exact" and d <= 1e-8:
             pass
-        if data_kind == "integer_counts":
+        if data_kind in ("integer_counts", "numpy_integer_counts"):
             d = 0.0          # rounded counts do not reproduce |psi><psi| exactly; the data-level comparison above decides
         if d > 1e-8:
             ctx.violation(f"rho differs from |psi><psi| by {d:.3g} (fidelity {fid:.6f})", case=case,
                           mechanism="rho_value" + mech_suffix, monitor="StateTomography.process post-condition")
-        elif abs(fid - 1) > 1e-6 and data_kind != "integer_counts":
+        elif abs(fid - 1) > 1e-6 and data_kind not in ("integer_counts", "numpy_integer_counts"):
             ctx.violation(f"fidelity against the prepared state is {fid:.9f}", case=case,
                           mechanism="rho_fidelity" + mech_suffix, monitor="StateTomography.process post-condition")
         if circmon.circuit_fingerprint(base, with_unitary=True) != fp:
@@ -357,16 +364,16 @@ def run(ctx):
                     seen["settings"].clear()
                     seen["data"].clear()
                     rho2 = st.process()
-                    if data_kind == "integer_counts" and len(seen["data"]) == 3 ** n:
+                    if data_kind in ("integer_counts", "numpy_integer_counts") and len(seen["data"]) == 3 ** n:
                         rho2_exp = tomoref.rho_from_counts(seen["data"], n)      # rounded counts: data-level reference
-                    elif data_kind == "integer_counts":
+                    elif data_kind in ("integer_counts", "numpy_integer_counts"):
                         rho2_exp = rho2
                     d2 = float(np.max(np.abs(rho2 - rho2_exp)))
                     if d2 > 1e-8:
                         ctx.violation(f"after editing the base circuit in place, process() on the same object gives a rho "
                                       f"that differs from the new |psi><psi| by {d2:.3g}", case={**case, "edit": desc + [qi]},
                                       mechanism="rho_value_after_in_place_edit", monitor="StateTomography.process post-condition")
-                    if pp is not None and data_kind != "integer_counts":
+                    if pp is not None and data_kind not in ("integer_counts", "numpy_integer_counts"):
                         # ... and the same object once more after only the Parameter's value changed
                         pp.set(float(pp.get() + rng.uniform(0.5, 2.0)))
                         ctx.bucket("tomography_object_reused_after_parameter_change")
